@@ -331,8 +331,13 @@ func (c *Controller) resolveMatch(ls *linkState, hashBytes []byte, ms link.Mount
 		}
 	})
 
+	// all matching solicitations share one value so that the stream can be
+	// accepted by at most one of them.
+	var sms link_solicit.SolicitMountedStream
+	if len(matches) != 0 {
+		sms = link_solicit.NewSolicitMountedStream(ms)
+	}
 	for _, ss := range matches {
-		sms := link_solicit.NewSolicitMountedStream(ms)
 		if _, ok := ss.handler.AddValue(sms); ok {
 			ls.le.WithField("hash", hashHex).Debug("emitted SolicitMountedStream value")
 		}
